@@ -1,8 +1,12 @@
 """C11 - a multi-fit is the sum of its parts, or the joint fit if errors are shared.
 
 Mode D x B: all ordered member lists up to length 2 (3 thorough) from a pool with every parameter-overlap pattern x shared
-sources on every subset >= 2 of the equal-size chi2 members (incl. the non-adjacent pair {0,2}) x operation sequences
-(set / set_all / fix / release on the multi-fit or a member) up to length 2, before and after do_fit.
+sources on every subset >= 2 of the equal-size chi2 members (xy, indexed, chi2 histogram; incl. the non-adjacent pair {0,2};
+axis argument omitted / given where the members have a single axis) x operation sequences (set / set_all / fix / release /
+do_fit on the multi-fit or on every member) up to length 2, before do_fit, and one operation after it x every way to ask the
+multi-fit for asymmetric uncertainties (with the fit, or afterwards by property / report / result dictionary).
+
+An execution with do_fit is run once: its unfitted prefix is the execution without do_fit (same calls, same reads).
 """
 import itertools
 import warnings
@@ -17,40 +21,57 @@ RULE = (
     "executions = (ordered member list, shared-source configuration, operation sequence on multi-fit / members, fit or not); after "
     "every operation: cost(multi) = sum of member reference costs (+ constraints) or the dense joint reference with the shared "
     "matrix in all blocks between sharing members, total_cov_mat likewise, same-named parameters equal everywhere; after do_fit "
-    "member results = sub-blocks of the multi-fit result, one-member multi-fit = stand-alone fit; non-trivial = >= 2 members "
-    "sharing a parameter or a source"
+    "member results (values, symmetric and asymmetric uncertainties, covariance, correlations) = sub-blocks of the multi-fit "
+    "result whichever way they were requested from the multi-fit, one-member multi-fit = stand-alone fit; after one more "
+    "operation behind the fit the cost / common-value clauses again; non-trivial = >= 2 members sharing a parameter or a source"
 )
 ASSUMPTIONS = [
     "shared sources: absolute simple (rho = 0 and > 0), matrix, x-axis for xy members; data-relative shared sources need identical references in all sharing members and are not generated",
     "member-level fix/release only together with a value (common values are specified, a common fixed flag is not)",
 ]
 SHARED_KINDS = ["y-abs", "y-abs-rho", "y-cov"]
-EQUAL_SIZE = {"xy_ab", "xy_ac", "idx_ad", "xy_ab_x"}
+# chi2 members that take part in shared sources (a source can be shared by members of one data size only)
+SHARERS = {"xy_ab", "xy_ac", "idx_ad", "xy_ab_x", "idx_ad_b", "hist_chi2", "idx_ad5"}
+BASE = ["xy_ab", "xy_ac", "idx_ad", "xy_bc", "xy_ab_x", "xy_ab_noerr", "xy_ab_relm", "hist", "unbinned"]
+SINGLE_AXIS = ["idx_ad_b", "hist_chi2", "idx_ad5"]  # + idx_ad: pairs of single-axis chi2 members of one size
+ASYM_ROUTES = ["fit:asym", "fit+prop", "fit+report", "fit+result"]
 
 
 def member_lists(tier):
-    names = list(POOL)
-    out = [[n] for n in names]
-    out += [list(p) for p in itertools.permutations(names, 2)]
+    out = [[n] for n in BASE + SINGLE_AXIS]
     if tier != "quick":
+        out += [list(p) for p in itertools.permutations(BASE + SINGLE_AXIS, 2)]
         core = ["xy_ab", "xy_ac", "idx_ad", "xy_bc", "hist"]
         out += [list(p) for p in itertools.permutations(core, 3)]
+        out += [list(p) for p in itertools.permutations(["idx_ad", "xy_ab", "idx_ad_b"], 3)]
+        out += [list(p) for p in itertools.permutations(["hist_chi2", "hist", "idx_ad5"], 3)]
     else:
+        out += [list(p) for p in itertools.permutations(BASE, 2)]
+        out += [list(p) for p in itertools.permutations(["idx_ad", "idx_ad_b"], 2)]
+        out += [list(p) for p in itertools.permutations(["hist_chi2", "idx_ad5"], 2)]
+        out += [["hist_chi2", "hist"], ["xy_ab", "hist_chi2"], ["idx_ad_b", "xy_ac"]]
         out += [["xy_ab", "xy_bc", "xy_ac"], ["xy_ac", "hist", "xy_ab_x"], ["idx_ad", "xy_ab", "xy_ac"], ["xy_ab", "unbinned", "idx_ad"]]
+        out += [["idx_ad", "xy_ab", "idx_ad_b"], ["hist_chi2", "unbinned", "idx_ad5"], ["xy_ab", "xy_ac", "hist_chi2"]]
     return out
 
 
 def shared_configs(ml, tier):
-    idx = [i for i, n in enumerate(ml) if n in EQUAL_SIZE]
+    """None | (kind, member indices[, 'explicit']): every subset >= 2 of the sharers of one data size x kind; if all members of
+    the subset have a single axis, the source is declared without the axis argument and with it ('explicit')"""
     out = [None]
-    subsets = []
-    for r in range(2, len(idx) + 1):
-        subsets += list(itertools.combinations(idx, r))
-    for sub in subsets:
-        for k in SHARED_KINDS:
-            out.append((k, list(sub)))
-        if all(POOL[ml[i]][0] == "xy" for i in sub):
-            out.append(("x-abs", list(sub)))
+    for size in sorted({POOL[n][3] for n in ml if n in SHARERS}):
+        idx = [i for i, n in enumerate(ml) if n in SHARERS and POOL[n][3] == size]
+        subsets = []
+        for r in range(2, len(idx) + 1):
+            subsets += list(itertools.combinations(idx, r))
+        for sub in subsets:
+            single_axis = all(POOL[ml[i]][0] != "xy" for i in sub)
+            for k in SHARED_KINDS:
+                out.append((k, list(sub)))
+                if single_axis:
+                    out.append((k, list(sub), "explicit"))
+            if all(POOL[ml[i]][0] == "xy" for i in sub):
+                out.append(("x-abs", list(sub)))
     return out
 
 
@@ -75,7 +96,24 @@ def op_alphabet(mw):
     if not mw.cons and not w0.cons:
         ops.append(("m", ("con", "simple")))
         ops.append(("f0", ("con", "simple")))
+    for i in range(len(mw.members)):  # complete value list / the member's own fit, issued on every member
+        ops.append(("f%d" % i, ("setall", "P2")))
+        ops.append(("f%d" % i, ("fit",)))
     return ops
+
+
+def member_wide(op):
+    """the operations that go through a member's own fitter: complete value list, the member's own fit"""
+    return op[0] != "m" and op[1][0] in ("setall", "fit")
+
+
+def allowed_pair(op1, op2):
+    """length-2 sequences: all over the operations by name; two different member-wide operations; a member-wide operation behind a fix on the multi-fit"""
+    if member_wide(op1) and op1 == op2:
+        return False
+    if member_wide(op1) == member_wide(op2):
+        return True
+    return member_wide(op2) and op1[0] == "m" and op1[1][0] == "fix" and len(op1[1]) == 2
 
 
 def valid(mw, op):
@@ -88,6 +126,10 @@ def valid(mw, op):
     else:
         w = mw.members[int(op[0][1:])]
         if o[0] == "set" and any(p in mw.fixed or p in w.fixed for p in o[1]):
+            return False
+        if o[0] == "setall" and any(p in mw.fixed or p in w.fixed for p in w.par_names):
+            return False
+        if o[0] == "fit" and all(p in mw.fixed or p in w.fixed for p in w.par_names):
             return False
         if o[0] == "fix" and (o[1] in mw.fixed or o[1] in w.fixed):
             return False
@@ -123,7 +165,7 @@ def check_state(mw, order):
             for p, val in zip(w.par_names, np.asarray(w.fit.parameter_values, dtype=float)):
                 if val != mv[p]:
                     out.append(("member%d.parameter_values:%s" % (i, p), mv[p], float(val), "not-common"))
-        if all(w.ftype in ("xy", "indexed") for w in mw.members):
+        if len(mw.chi2_members()) == len(mw.members):
             V = np.asarray(multi.total_cov_mat, dtype=float)
             if mw.shared:
                 E = mw.ref_joint()["V"]
@@ -195,12 +237,40 @@ def check_single_member(mw):
     return out
 
 
-def run_history(ml, shared, seq, do_fit, order, res=None):
+def check_asymmetric(mw):
+    """asymmetric uncertainties were requested from the multi-fit: every member reports the rows of its own parameters"""
+    out = []
+    with warnings.catch_warnings():
+        warnings.simplefilter("ignore")
+        A = mw.multi.asymmetric_parameter_errors
+        if A is None or np.shape(A) != (len(mw.par_names), 2):
+            return [("multi.asymmetric_parameter_errors", "array of shape (%d, 2)" % len(mw.par_names), None if A is None else np.asarray(A).tolist(), "missing")]
+        A = np.asarray(A, dtype=float)
+        for i, w in enumerate(mw.members):
+            idx = [mw.par_names.index(p) for p in w.par_names]
+            got = w.fit.asymmetric_parameter_errors
+            if got is None:
+                out.append(("member%d.asymmetric_parameter_errors" % i, A[idx].tolist(), None, "missing"))
+                continue
+            got = np.asarray(got, dtype=float)
+            if got.shape != A[idx].shape or not np.allclose(got, A[idx], rtol=1e-10, atol=1e-14, equal_nan=True):
+                out.append(("member%d.asymmetric_parameter_errors" % i, A[idx].tolist(), got.tolist(), "not-a-sub-block"))
+    return out
+
+
+def _shared_op(shared):
+    return ("shared", shared[0], "sh0", shared[1]) + tuple(shared[2:])
+
+
+def run_history(ml, shared, seq, fit, order, res=None, post=None):
+    """fit: False | True (plain do_fit) | one of ASYM_ROUTES; post: one more operation behind the fit.
+    -> (violations of the unfitted prefix, violations at / behind the fit)"""
     mw = MultiWorld(ml)
-    viol = []
+    pre, viol = [], []
+    cur = pre
     try:
         if shared is not None:
-            mw.apply(("shared", shared[0], "sh0", shared[1]))
+            mw.apply(_shared_op(shared))
             if res is not None:
                 res.transitions += 1
         bad = check_state(mw, order)
@@ -212,21 +282,42 @@ def run_history(ml, shared, seq, do_fit, order, res=None):
                 res.transitions += 1
                 res.evaluations += 3
             bad = check_state(mw, order)
-        viol += bad
-        if do_fit and not viol:
-            mw.apply(("m", ("fit",)))
+        pre += bad
+        if fit and not pre:
+            cur = viol
+            mw.apply(("m", ("fit", "asym") if fit == "fit:asym" else ("fit",)))
             viol += check_state(mw, order)
             viol += check_after_fit(mw)
-            if len(ml) == 1 and not seq and shared is None:
+            if len(ml) == 1 and not seq and shared is None and fit is True and post is None:
                 viol += check_single_member(mw)
             if res is not None:
                 res.transitions += 1
                 res.evaluations += 6
+            if fit in ASYM_ROUTES and not viol:
+                if fit != "fit:asym":
+                    mw.apply(("m", ("query", fit.split("+")[1])))
+                viol += check_asymmetric(mw)
+                viol += check_after_fit(mw)
+                if res is not None:
+                    res.transitions += 1
+                    res.evaluations += 5
+            if post is not None and not viol:
+                mw.apply(post)
+                viol += check_state(mw, order)
+                if res is not None:
+                    res.transitions += 1
+                    res.evaluations += 3
     except Exception as e:  # noqa: BLE001
         import traceback
 
-        viol.append(("op", "no exception", "%s: %s | %s" % (type(e).__name__, str(e)[:120], traceback.format_exc()[-200:]), "exception:" + type(e).__name__))
-    return viol
+        cur.append(("op", "no exception", "%s: %s | %s" % (type(e).__name__, str(e)[:120], traceback.format_exc()[-200:]), "exception:" + type(e).__name__))
+    return pre, viol
+
+
+def post_ops(ml, shared):
+    """operations issued behind the fit (unfitted history empty): the alphabet at the fitted state"""
+    mw = MultiWorld(ml)
+    return [op for op in op_alphabet(mw) if valid(mw, op)]
 
 
 def all_sequences(ml, L):
@@ -242,7 +333,7 @@ def all_sequences(ml, L):
         except Exception:  # noqa: BLE001
             return
         for op in op_alphabet(mw):
-            if valid(mw, op):
+            if valid(mw, op) and (not prefix or allowed_pair(prefix[-1], op)):
                 out.append(prefix + (op,))
                 rec(prefix + (op,))
 
@@ -251,17 +342,28 @@ def all_sequences(ml, L):
 
 
 def jobs(tier, seed):
-    specs = []
-    for i, ml in enumerate(member_lists(tier)):
-        specs.append((i, tier, seed % 2))
-    return specs
+    lists = member_lists(tier)
+    # the long jobs (most members, most sharers) first: the pool works them off in this order
+    order = sorted(range(len(lists)), key=lambda i: (-len(lists[i]), -sum(n in SHARERS for n in lists[i]), i))
+    return [(i, tier, seed % 2) for i in order]
 
 
 def bound(tier, seed):
-    return "%d ordered member lists (length 1-%d from a pool of 7 members: xy(a,b), xy(a,c), indexed(a,d), xy(b,c), xy(a,b)+x errors, histogram, unbinned) x shared sources (3 y kinds + x) on every subset >= 2 of equal-size chi2 members x operation sequences of length <= 2 (<= 1 with shared sources) x {unfitted, fitted}" % (
-        len(member_lists(tier)),
-        2 if tier == "quick" else 3,
+    return (
+        "%d ordered member lists (length 1-%d from a pool of 12 members: xy(a,b), xy(a,c), indexed(a,d) x 2, xy(b,c), xy(a,b)+x errors, xy without "
+        "errors, xy with model-relative errors, nll histogram, unbinned, chi2 histogram, indexed of its size) x shared sources (3 y kinds + x; axis omitted "
+        "and given for single-axis members) on every subset >= 2 of equal-size chi2 sharers x operation sequences of length <= 2 (<= 1 with shared "
+        "sources) over set / set_all / fix / release / constraint on the multi-fit and set / set_all / fix / do_fit on the members x {unfitted, fitted}; "
+        "with the empty sequence also 4 ways to ask for asymmetric uncertainties and every single operation behind the fit"
+        % (len(member_lists(tier)), 2 if tier == "quick" else 3)
     )
+
+
+def _fit_tag(fit, post):
+    t = "nofit" if not fit else ("fit" if fit is True else fit)
+    if post is not None:
+        t += ">%s.%s" % (post[0], post[1][0])
+    return t
 
 
 def run_job(spec):
@@ -269,27 +371,57 @@ def run_job(spec):
     ml = member_lists(tier)[i]
     res = JobResult()
     order = "multi-first" if par == 0 else "members-first"
+
+    def record(shared, seq, fit, post, viol):
+        res.executions += 1
+        key = (tuple(ml), repr(shared), seq, fit, post)
+        res.state(repr(key))
+        if len(ml) > 1:
+            res.nontriv(repr(key))
+        res.observe((repr(key), len(viol)))
+        res.outcomes[("members%d" % len(ml), "shared" if shared else "plain", _fit_tag(fit, None) + (">post" if post else ""), "ok" if not viol else "VIOLATION")] += 1
+        res.facts["shared:%s" % (shared[0] if shared else "none")] += 1
+        if shared and len(shared[1]) == 2 and shared[1][1] - shared[1][0] == 2:
+            res.facts["shared:non-adjacent"] += 1
+        if shared and all(POOL[ml[j]][0] != "xy" for j in shared[1]):
+            res.facts["shared:single-axis:%s" % ("axis given" if len(shared) > 2 else "axis omitted")] += 1
+            if any(POOL[ml[j]][0] == "hist" for j in shared[1]):
+                res.facts["shared:chi2-histogram"] += 1
+        for op in seq:
+            if op[0] != "m" and op[1][0] in ("setall", "fit"):
+                res.facts["member-op:%s" % op[1][0]] += 1
+        if fit in ASYM_ROUTES:
+            res.facts["asymmetric:%s" % fit] += 1
+        if post is not None:
+            res.facts["post-fit-op"] += 1
+        for o, e, a, m in viol:
+            hist = [dict(members=ml, shared=list(shared) if shared else None, fit=fit, order=order, post=[post[0], list(post[1])] if post else None)]
+            hist += [[op[0], list(op[1])] for op in seq]
+            sig = "%s|%s|%s|%s" % (
+                "+".join(ml),
+                "none" if not shared else "%s@%s%s" % (shared[0], shared[1], "" if len(shared) < 3 else "/" + shared[2]),
+                ";".join("%s.%s" % (op[0], op[1][0]) for op in seq),
+                _fit_tag(fit, post),
+            )
+            res.violation(sig, hist, o, e, a, m)
+
     for shared in shared_configs(ml, tier):
         L = 2 if shared is None else 1
         if len(ml) == 3 and shared is None and tier == "quick":
             L = 1
         for seq in all_sequences(ml, L):
-            for do_fit in (False, True):
-                viol = run_history(ml, shared, seq, do_fit, order, res)
-                res.executions += 1
-                key = (tuple(ml), repr(shared), seq, do_fit)
-                res.state(repr(key))
-                if len(ml) > 1:
-                    res.nontriv(repr(key))
-                res.observe((repr(key), len(viol)))
-                res.outcomes[("members%d" % len(ml), "shared" if shared else "plain", "fit" if do_fit else "nofit", "ok" if not viol else "VIOLATION")] += 1
-                res.facts["shared:%s" % (shared[0] if shared else "none")] += 1
-                if shared and len(shared[1]) == 2 and shared[1][1] - shared[1][0] == 2:
-                    res.facts["shared:non-adjacent"] += 1
-                for o, e, a, m in viol:
-                    hist = [dict(members=ml, shared=shared, fit=do_fit, order=order)] + [[op[0], list(op[1])] for op in seq]
-                    sig = "%s|%s|%s|%s" % ("+".join(ml), "none" if not shared else "%s@%s" % (shared[0], shared[1]), ";".join("%s.%s" % (op[0], op[1][0]) for op in seq), "fit" if do_fit else "nofit")
-                    res.violation(sig, hist, o, e, a, m)
+            # one run: the unfitted prefix of the fitted execution IS the unfitted execution
+            pre, viol = run_history(ml, shared, seq, True, order, res)
+            record(shared, seq, False, None, pre)
+            if not pre:
+                record(shared, seq, True, None, viol)
+            if seq or pre:
+                continue
+            for route in ASYM_ROUTES if shared is None or tier != "quick" else ASYM_ROUTES[1:2]:
+                record(shared, seq, route, None, run_history(ml, shared, seq, route, order, res)[1])
+            if shared is None or tier != "quick":
+                for post in post_ops(ml, shared):
+                    record(shared, seq, True, post, run_history(ml, shared, seq, True, order, res, post=post)[1])
     res.sample(dict(members=ml, shared_configs=len(shared_configs(ml, tier)), order=order))
     return res.as_dict()
 
@@ -297,8 +429,9 @@ def run_job(spec):
 def replay(history):
     h = history[0]
     seq = [(o[0], tuple(o[1])) for o in history[1:]]
-    viol = run_history(h["members"], tuple(h["shared"]) if h["shared"] else None, seq, h["fit"], h["order"])
-    return [dict(observable=o, expected=e, actual=a, mode=m) for o, e, a, m in viol]
+    post = (h["post"][0], tuple(h["post"][1])) if h.get("post") else None
+    pre, viol = run_history(h["members"], tuple(h["shared"]) if h["shared"] else None, seq, h["fit"], h["order"], post=post)
+    return [dict(observable=o, expected=e, actual=a, mode=m) for o, e, a, m in pre + viol]
 
 
 def triage_key(v):
@@ -310,3 +443,8 @@ def vacuity_guards(tot, tier):
     yield "shared sources on a non-adjacent member pair explored", tot.facts.get("shared:non-adjacent", 0) > 0
     yield "shared x source explored", tot.facts.get("shared:x-abs", 0) > 0
     yield "shared matrix source explored", tot.facts.get("shared:y-cov", 0) > 0
+    yield "shared source on single-axis members declared without the axis argument", tot.facts.get("shared:single-axis:axis omitted", 0) > 0
+    yield "shared source on a chi2 histogram member explored", tot.facts.get("shared:chi2-histogram", 0) > 0
+    yield "set_all / do_fit issued on a member explored", tot.facts.get("member-op:setall", 0) > 0 and tot.facts.get("member-op:fit", 0) > 0
+    yield "asymmetric uncertainties requested behind a plain fit", tot.facts.get("asymmetric:fit+prop", 0) > 0
+    yield "operations behind the fit explored", tot.facts.get("post-fit-op", 0) > 0
